@@ -17,6 +17,7 @@ Fixpoint ok_from (unlinked : bool) (l : list (hev * lk)) : bool :=
   | (ESend, s) :: r => negb (lk_eqb s LNone) && ok_from unlinked r
   | (EMapWrite, s) :: r => lk_eqb s LWrite && ok_from true r
   | (EClose, s) :: r => (lk_eqb s LWrite || (lk_eqb s LNone && unlinked)) && ok_from unlinked r
+  | (EAcq, _) :: r => ok_from unlinked r
   end.
 
 Definition ok_skeleton (l : list (hev * lk)) : bool := ok_from false l.
@@ -34,3 +35,25 @@ Lemma hub_senders_atomic :
   existsb (fun e => match e with (ESend, LRead) => true | _ => false end) hub_BroadcastExcept = true /\
   existsb (fun e => match e with (ESend, LRead) => true | _ => false end) hub_SendTo = true.
 Proof. vm_compute. repeat split. Qed.
+
+(* Atomicity granularity of Model/Hub.v, read off the source: the number of
+   critical sections (acquisitions of h.mu) of every operation.  Add, List,
+   SendTo, Broadcast and BroadcastExcept are ONE critical section each - the
+   model's single steps [Add], [ListOp], [SendTo], [Bcast]; CloseSession has one
+   (its detach phase [Cs1]; the per-connection closes [Cs2] take no lock); the
+   remove closure returned by Add has two ([Rm1] unlink and [Rm3] garbage
+   collection, with the lock-free close [Rm2] in between); the writer goroutine
+   started by Add takes none. *)
+Definition acquisitions (l : list (hev * lk)) : nat :=
+  length (filter (fun e => match e with (EAcq, _) => true | _ => false end) l).
+
+Lemma hub_critical_sections :
+  acquisitions hub_Add = 1 /\ acquisitions hub_Add_lit1 = 0 /\ acquisitions hub_Add_lit2 = 2 /\ acquisitions hub_CloseSession = 1 /\ acquisitions hub_List = 1 /\ acquisitions hub_Broadcast = 1 /\ acquisitions hub_BroadcastExcept = 1 /\ acquisitions hub_SendTo = 1.
+Proof. vm_compute. repeat split. Qed.
+
+(* ... and nothing is done to the routing maps or the channels outside those
+   sections except the lock-free close after the unlink: every event of Add
+   happens under the write lock *)
+Lemma hub_add_all_locked :
+  forallb (fun e => match e with (_, LWrite) => true | _ => false end) hub_Add = true.
+Proof. vm_compute. reflexivity. Qed.
